@@ -7,7 +7,7 @@ from ..harness import scn, gen, obs as O, pyeval, coq, impl
 from . import base_scn
 
 pid = 'C04'
-gen_modules = ['tr_state', 'tr_validators', 'tr_has_patcher', 'tr_contracts', 'tr_rules', 'tr_decorators', 'tr_pin_contracts']
+gen_modules = ['tr_state', 'tr_validators', 'tr_has_patcher', 'tr_contracts', 'tr_rules', 'tr_decorators', 'tr_pin_contracts', 'tr_rest_validators', 'tr_rest_patcher', 'tr_rest_state']
 model_targets = ['Sem/Scenario.v', 'Sem/ScnMarkers.v']
 hand_modelled = ['coq/Sem/Scenario.v: do_effect (what print / sys.stderr.write / socket.socket() do on a real or patched stream)']
 explanation = ('Theorems over all marker lists about the generated has_* predicates, the linter coverage decision and the documented table; '
@@ -106,6 +106,11 @@ def make(rnd, k):
     for e in effs:
         if e: body.append(['effect', e])
     body.append(['return', ['const', I(7)]])
+    if kind == 'sync' and rnd.random() < .25:
+        # re-entrance: f(1) first calls f(0) (which performs nothing), then performs its effects: they must still be judged by M
+        body = [['if', ['bin', 'gt', ['var', 'n'], ['const', I(0)]], [['call', 'f', [['bin', 'sub', ['var', 'n'], ['const', I(1)]]], []]], []]]
+        body += [['if', ['bin', 'eq', ['var', 'n'], ['const', I(1)]], [['effect', e]], []] for e in effs if e]
+        body.append(['return', ['const', I(7)]])
     stack = [['has', ids(), M, msg, exc]]
     if rnd.random() < .3:
         stack.append(['pre', gen.gen_sval(rnd, ids, [['n', 'PosOrKw', None]])])
@@ -124,7 +129,7 @@ def monitor(sc, obs):
     M, msg, exc = has[2], has[3], has[4]
     if any(pyeval.verdict(v, f['sig'], [I(1)], [])[0] != 'accept' for v in pres):
         return []
-    effs = [s[1] for s in f['body'] if s[0] == 'effect']
+    effs = [s[1] for s in f['body'] if s[0] == 'effect'] + [s[2][0][1] for s in f['body'] if s[0] == 'if' and s[2] and s[2][0][0] == 'effect']
     events = [e for a in acts for e in a.effects()]
     out = []
     final = acts[-1]
